@@ -323,14 +323,27 @@ class Side:
             if locked and b.revno() > 0:
                 # fill the handle's caches before the tip moves
                 before = (b.get_rev_id(b.revno()), b.get_rev_id(1),
-                          b.revision_id_to_dotted_revno(b.last_revision()))
+                          b.revision_id_to_dotted_revno(b.last_revision()),
+                          self._history_views(b))
             b.set_last_revision_info(revno, bz.enc(rid))
             if locked:
                 return (before, b.last_revision_info(), b.revno(),
                         b.last_revision(), b.get_rev_id(revno),
                         b.get_rev_id(1),
                         b.revision_id_to_dotted_revno(bz.enc(rid)),
-                        b.revision_id_to_revno(bz.enc(rid)))
+                        b.revision_id_to_revno(bz.enc(rid)),
+                        self._history_views(b))
+
+    @staticmethod
+    def _history_views(b):
+        return (sorted(b.get_revision_id_to_revno_map().items()),
+                [(r[0], r[1], r[2], r[3])
+                 for r in b.iter_merge_sorted_revisions()])
+
+    def op_history(self, name):
+        b = self.handle(name)
+        with b.lock_read():
+            return self._history_views(b)
 
     def op_pack(self, name):
         b = self.handle(name)
@@ -524,9 +537,10 @@ def gen_case(draw, tier):
             ["create", "push", "push", "pull", "commit", "pull-from",
              "fetch-from", "tag", "tag", "deltag", "tags-merge", "cfg-set",
              "cfg-set", "cfg-get", "cfg-remove", "set-parent", "setrev",
+             "setrev", "setrev",
              "pack", "leave-break", "info", "info", "parentmap",
              "get-revision", "gettext", "iter-inv", "get-rev-id", "dotted",
-             "all-ids", "tags"]))
+             "all-ids", "tags", "history"]))
         if kind == "create":
             if len(names) >= 3:
                 continue
@@ -542,7 +556,7 @@ def gen_case(draw, tier):
             prog.append([kind, name, draw(st.sampled_from(
                 [False, False, False, True]))])
         elif kind in ("commit", "pack", "leave-break", "info", "all-ids",
-                      "tags"):
+                      "tags", "history"):
             prog.append([kind, name])
         elif kind in ("pull-from", "fetch-from", "get-revision", "dotted"):
             prog.append([kind, name, draw(ridx)])
@@ -559,7 +573,8 @@ def gen_case(draw, tier):
         elif kind in ("cfg-get", "cfg-remove"):
             prog.append([kind, name, draw(st.sampled_from(KEYS))])
         elif kind == "setrev":
-            prog.append(["setrev", name, draw(ridx), draw(st.booleans())])
+            prog.append(["setrev", name, draw(ridx),
+                         draw(st.sampled_from([True, True, True, False]))])
         elif kind == "gettext":
             prog.append(["gettext", name, draw(ridx), draw(st.integers(0, 5))])
         elif kind == "iter-inv":
